@@ -106,6 +106,14 @@ def make(kind, form='1d', alt=0):
         R = ref.rotz(PI / 2) @ ref.rotx(PI if alt else 0.0)
         R[0, 2] += 3e-15
         return R
+    if kind == 'R3u':
+        # a product that is the identity up to rounding, with a diagonal element one ulp ABOVE 1 (passes every validity test)
+        R = ref.rotx(0.08) @ ref.rotx(-0.08) if not alt else ref.rotz(0.08) @ ref.rotz(-0.08)
+        if not R.max() > 1:
+            raise HarnessError('R3u has no element above 1')
+        return R
+    if kind == 'T3u':
+        return ref.rt(make('R3u', alt=alt), (1.0, 2.0 + alt, 3.0))
     if kind == 'T3z':
         return ref.rt(ref.rotz(PI / 2), (3e-15, 2.0 + alt, -1e-15))
     if kind == 'R2z':
@@ -161,6 +169,10 @@ def make(kind, form='1d', alt=0):
         if multi:
             o.data = [np.array([1.0 + i, 2.0, 3.0, 0.3, -0.2, 0.1]) for i in range(alt, alt + n)]
         return o
+    if k == 'SE3u':
+        return S.SE3(make('T3u', alt=alt))
+    if k == 'SO3u':
+        return S.SO3(make('R3u', alt=alt))
     if k == 'SE3z':
         return S.SE3(make('T3z', alt=alt))
     if k == 'SE2z':
@@ -284,9 +296,12 @@ def descriptors():
         zk = [{'T3': 'T3z', 'T2': 'T2z', 'R3': 'R3z', 'R2': 'R2z'}.get(k, k) for k in kinds]
         if zk != kinds:
             out.append(D('base.%s/%s' % (name, ','.join(zk)), getattr(b, name), [k if not k.startswith('=') else 'c' for k in zk], consts, site='base.' + name))
+        uk = [{'T3': 'T3u', 'R3': 'R3u'}.get(k, k) for k in kinds]
+        if uk != kinds:
+            out.append(D('base.%s/%s' % (name, ','.join(uk)), getattr(b, name), [k if not k.startswith('=') else 'c' for k in uk], consts, site='base.' + name))
     # 2b. printing and formatting (output to a scratch stream): reading a value must not change it
     import io
-    for name, kinds in (('trprint', ['T3']), ('trprint', ['R3']), ('trprint', ['T3z']), ('trprint', ['R3z']), ('trprint2', ['T2']), ('trprint2', ['R2']), ('trprint2', ['T2z']),
+    for name, kinds in (('trprint', ['T3']), ('trprint', ['R3']), ('trprint', ['T3z']), ('trprint', ['R3z']), ('trprint', ['T3u']), ('trprint', ['R3u']), ('trprint2', ['T2']), ('trprint2', ['R2']), ('trprint2', ['T2z']),
                         ('trprint2', ['R2z'])):
         for kw in ({}, {'orient': 'eul'}, {'orient': 'angvec'}, {'unit': 'rad'}, {'label': 'T'}):
             if name == 'trprint2' and 'orient' in kw:
@@ -299,12 +314,12 @@ def descriptors():
             with contextlib.redirect_stdout(io.StringIO()):
                 return f(*a)
         return g
-    for kind in ['SO2', 'SE2', 'SO3', 'SE3', 'SE3z', 'SE2z', 'SO3z', 'SE3*', 'SE2*', 'SO3*', 'SO2*']:
+    for kind in ['SO2', 'SE2', 'SO3', 'SE3', 'SE3z', 'SE2z', 'SO3z', 'SE3u', 'SO3u', 'SE3*', 'SE2*', 'SO3*', 'SO2*']:
         cn = type(make(kind)).__name__
         out.append(D('%s.printline(None)/%s' % (cn, kind), quiet(lambda x: x.printline(file=None)), [kind], site=cn + '.printline'))
         out.append(D('%s.printline(file)/%s' % (cn, kind), quiet(lambda x: x.printline(file=io.StringIO())), [kind], site=cn + '.printline'))
         out.append(D('%s.printline(eul)/%s' % (cn, kind), quiet(lambda x: x.printline(file=io.StringIO(), orient='eul') if x.N == 3 else x.printline(file=io.StringIO(), unit='rad')), [kind], site=cn + '.printline'))
-    for kind in OBJ_KINDS + MULTI + ['SE3z', 'SE2z', 'SO3z']:
+    for kind in OBJ_KINDS + MULTI + ['SE3z', 'SE2z', 'SO3z', 'SE3u', 'SO3u']:
         cn = type(make(kind)).__name__
         out.append(D('str/%s' % kind, lambda x: str(x), [kind], site=cn + '.__str__'))
         out.append(D('repr/%s' % kind, lambda x: __import__('re').sub(r'0x[0-9a-f]+', '0x', repr(x)), [kind], site=cn + '.__repr__'))      # (default object repr carries an address)
@@ -313,7 +328,7 @@ def descriptors():
     # 3. classes by reflection: properties and nullary methods, on single- and multi-valued receivers
     skip = {'plot', 'animate', 'printline', 'print', 'about', 'Rand', 'Alloc', 'Empty', 'simplify', 'plot_intersect_volume', 'intersect_volume', 'pop', 'clear',
             'reverse', 'copy', 'sort', 'count', 'index', 'remove', 'append', 'extend', 'insert', 'arghandler', 'binop', 'unop', 'isvalid', 'data'}
-    for kind in OBJ_KINDS + MULTI + ['SE3z', 'SE2z', 'SO3z']:
+    for kind in OBJ_KINDS + MULTI + ['SE3z', 'SE2z', 'SO3z', 'SE3u', 'SO3u']:
         o = make(kind)
         C = type(o)
         for an in sorted(set(dir(C))):
